@@ -150,11 +150,15 @@ fn write_num(mut n: u64) {
     write_all(&buf[i..]);
 }
 
-extern "C" fn handler(_sig: libc::c_int, info: *mut libc::siginfo_t, _ctx: *mut libc::c_void) {
+extern "C" fn handler(sig: libc::c_int, info: *mut libc::siginfo_t, _ctx: *mut libc::c_void) {
     // Async-signal-safe only.
     let addr = unsafe { (*info).si_addr() } as usize;
     let p = POISON.load(Ordering::Relaxed);
-    let class: &[u8] = if p != 0 && addr >= p && addr < p + 4096 {
+    let class: &[u8] = if sig == libc::SIGABRT || sig == libc::SIGILL {
+        // abort(): a panic that cannot unwind (e.g. the misaligned-pointer
+        // check), a double panic, or the allocator giving up.
+        b"abort"
+    } else if p != 0 && addr >= p && addr < p + 4096 {
         b"cq.poison-read"
     } else if in_guard(addr) {
         b"teardown.segv"
@@ -207,5 +211,7 @@ pub fn install_handler() {
         libc::sigemptyset(&mut sa.sa_mask);
         libc::sigaction(libc::SIGSEGV, &sa, std::ptr::null_mut());
         libc::sigaction(libc::SIGBUS, &sa, std::ptr::null_mut());
+        libc::sigaction(libc::SIGABRT, &sa, std::ptr::null_mut());
+        libc::sigaction(libc::SIGILL, &sa, std::ptr::null_mut());
     }
 }
